@@ -13,6 +13,9 @@ MCNext ==
   \/ ~AtomicRound /\ RWrite /\ Same
   \/ ~AtomicRound /\ RCommit /\ Same
   \/ MetaFlush /\ nflush < MaxFlush /\ nflush' = nflush + 1 /\ UNCHANGED ncrash
+  \/ IdxPrepare /\ Same
+  \/ IdxCommitA /\ Same
+  \/ IdxCommitB /\ Same
   \/ FamilyFreeze /\ Same
   \/ FamilyCommit /\ Same
   \/ FamilyAck /\ Same
